@@ -2110,7 +2110,7 @@ L290:
     }
     if (lb && ub) { /* SGJ, 2008: make sure we are within bounds,
 		       since roundoff errors can push us slightly outside */
-	 for (j = 1; j <= i__1; ++j) {
+	 for (j = 1; j <= *n; ++j) {
 	      if (x[j] < lb[j-1]) x[j] = lb[j-1];
 	      else if (x[j] > ub[j-1]) x[j] = ub[j-1];
 	 }
@@ -2474,9 +2474,21 @@ L490:
 L530:
     if (fopt <= f) {
 	i__2 = *n;
+	if (nf <= *npt) {
+	    /* stopped while the initial interpolation points are still being
+	       sampled: XOPT has not been set yet, the best point is XPT(KOPT) */
+	    for (i__ = 1; i__ <= i__2; ++i__)
+		xopt[i__] = xpt[kopt + i__ * xpt_dim1];
+	}
 	for (i__ = 1; i__ <= i__2; ++i__) {
 /* L540: */
 	    x[i__] = xbase[i__] + xopt[i__];
+	}
+	if (lb && ub) { /* same clamp as where the objective was evaluated */
+	    for (j = 1; j <= *n; ++j) {
+		if (x[j] < lb[j-1]) x[j] = lb[j-1];
+		else if (x[j] > ub[j-1]) x[j] = ub[j-1];
+	    }
 	}
 	f = fopt;
     }
